@@ -32,6 +32,7 @@ def run(ck, fb):
     r20b(ck, fb)
     r20c(ck, fb)
     r20d(ck, fb)
+    r20e(ck, fb)
 
 
 def r20a(ck, fb):
@@ -111,6 +112,13 @@ def r20b(ck, fb):
                     okr = all(f and f[-1] in ('start', 'end', 'next_len') for f in srcs)
                 ck.require(okr, 'R20b', '%s:range-index' % b.name, s.where(),
                            'range read of buf with bounds not built from start/end', 'bounds from cursor fields')
+                # a read view of buf must stop at the valid end: an open-ended range exposes stale bytes behind `end`
+                is_mut = 'index_mut' in s.callee or 'IndexMut' in s.callee
+                if not is_mut:
+                    bounded = rng['k'] == 'agg' and len(rng['rv']['ops']) == 2 and 'RangeFrom' not in ity and 'RangeFull' not in ity
+                    ck.require(bounded, 'R20b', '%s:range-upper-bound' % b.name, s.where(),
+                               'MessageBufReader reads buf through an open-ended range (%s): bytes behind `end` are stale or unread, so a '
+                               'length prefix cut by a chunk boundary is decoded from garbage' % ity, 'range bounded by end / start+next_len')
                 n_idx += 1
                 continue
             n_idx += 1
@@ -135,7 +143,7 @@ def r20b(ck, fb):
                        'MessageBufReader reads buf[idx] without first comparing idx with `end` (the number of valid bytes): a record '
                        'ending exactly at the end of a read chunk makes the reader look at a stale/absent byte and end the scan early',
                        'guarded by idx < end')
-    ck.floor('R20b', 'buf index sites', n_idx, 3)
+    ck.floor('R20b', 'buf index sites', n_idx, 2)
     # append_next_buf must rebase both cursors
     b = ck.body(PU + 'MessageBufReader::append_next_buf', 'R20b')
     if b:
@@ -163,6 +171,60 @@ def r20b(ck, fb):
                 okc = False
         ck.require(okc, 'R20b', 'next_message_vec:complete-before-yield', b.where(),
                    'a message is handed out without checking that end-start covers next_len', 'guarded')
+
+
+def is_empty_table(ck, fb, rule):
+    """MessageBufReader::is_empty is the end-of-stream test of every chunked consumer. It depends on its state only through the
+    ordering of start/end/len and a zero test of one byte, so interpreting the compiled body on every (len<=3, 0<=start<=end<=len,
+    bytes in {0,1}) state covers every behaviour class. Expected: true exactly when start<end and buf[start]==0."""
+    b = ck.body(PU + 'MessageBufReader::is_empty', rule)
+    if not b:
+        return
+    ck.analysed(b)
+    adt = fb.adts.get(PU + 'MessageBufReader')
+    names = [f[0] for f in adt['variants'][0]['fields']] if adt else []
+    if not ck.require({'buf', 'start', 'end'} <= set(names), rule, 'is_empty:fields', b.where(),
+                      'MessageBufReader no longer has buf/start/end fields (%s)' % names, 'buf,start,end'):
+        return
+    n = 0
+    wrong = {}
+    import itertools
+    for ln in range(0, 4):
+        for bits in itertools.product((0, 1), repeat=ln):
+            for end in range(0, ln + 1):
+                for start in range(0, end + 1):
+                    vals = {'buf': VecV([BV.const(8, x) for x in bits]), 'start': BV.const(64, start), 'end': BV.const(64, end)}
+                    fields = [vals.get(nm, BV.const(64, 0)) for nm in names]
+                    selfv = Adt('MessageBufReader', 'MessageBufReader', fields, names)
+                    cell = type('F', (), {})()
+                    cell.locals = [selfv]
+                    cell.body = None
+                    want = start < end and bits[start] == 0
+                    n += 1
+                    try:
+                        r = Interp(fb).call_body(b, [Ref(frame=cell, place=0)], 0)
+                        got = bool(r.value())
+                    except Panic as e:
+                        got = 'panic: %s' % e
+                    except (Undecided, Unsupported) as e:
+                        wrong.setdefault('undecided', 'cannot interpret is_empty: %s' % e)
+                        continue
+                    if got != want:
+                        kind = 'drained-buffer' if start >= end else ('nonzero-byte' if bits[start] else 'zero-byte')
+                        wrong.setdefault(kind, 'is_empty(buf=%s,start=%d,end=%d) = %s, expected %s' % (list(bits), start, end, got, want))
+    ck.floor(rule, 'is_empty states interpreted', n, 50)
+    for kind in ('drained-buffer', 'nonzero-byte', 'zero-byte', 'undecided'):
+        ck.require(kind not in wrong, rule, 'is_empty:' + kind, b.where(),
+                   (wrong.get(kind) or '') + ' - the end-of-stream test must be "a valid byte exists and it is the zero length": a drained '
+                   'chunk (record ending exactly on a read-chunk boundary) is not the end of the stream, and a stale byte behind `end` is not data',
+                   'true iff start<end && buf[start]==0')
+
+
+def r20e(ck, fb):
+    ck.rule('R20e', 'MessageBufReader::is_empty (end-of-stream test of every chunked consumer) is true exactly when a valid byte exists '
+                    '(start<end) and it is zero; decided by interpreting the compiled body on every state with len<=3 (the function depends '
+                    'on its state only through orderings and one zero test, so this covers every behaviour class)')
+    is_empty_table(ck, fb, 'R20e')
 
 
 def r20c(ck, fb):
